@@ -39,6 +39,7 @@ type lfsServer struct {
 	reqs     []capturedReq
 	srv      *httptest.Server
 	putFail  map[string]int // oid -> status for PUT (e.g. 422, 500)
+	putLose  map[string]bool // oid -> the PUT is acknowledged with 200 but the data is not stored (a faulty object store)
 	noVerify bool
 	locks    []lfsLock
 	nextLock int
@@ -82,7 +83,7 @@ func (s *lfsServer) actHeader(kind, oid string) map[string]string {
 }
 
 func newLfsServer() *lfsServer {
-	s := &lfsServer{objs: map[string][]byte{}, putFail: map[string]int{}, user: "alice", lockMode: "ok", lastUploadAction: map[string]string{}}
+	s := &lfsServer{objs: map[string][]byte{}, putFail: map[string]int{}, putLose: map[string]bool{}, user: "alice", lockMode: "ok", lastUploadAction: map[string]string{}}
 	s.srv = httptest.NewServer(http.HandlerFunc(s.handle))
 	return s
 }
@@ -234,6 +235,10 @@ func (s *lfsServer) handle(w http.ResponseWriter, r *http.Request) {
 			if len(oid) == 64 && sha(body) != oid {
 				// like a real LFS server: content that does not hash to the id it is stored under is refused
 				w.WriteHeader(422)
+				return
+			}
+			if s.putLose[oid] {
+				w.WriteHeader(200) // acknowledged, lost: only the verify call-back can tell
 				return
 			}
 			s.objs[oid] = body
